@@ -463,6 +463,13 @@ def failed_cases(rng, tier):
         ie = k2.pop("ingress_extra")
         k2.update(kw)
         add("restart:" + n, "restart", new=config(dr, ingress_extra=ie, **k2), expect="fail-restart")
+    # settings of a block that is switched off on both sides but still drive something: queue_retention.prune_interval is the store's one
+    # prune cadence (DLQ and delivered retention follow it) - handed to the store once, at start-up
+    for n, (a, b) in (("prune-interval-while-max-age-off", ("queue_retention {\n  max_age off\n  prune_interval 5m\n}", "queue_retention {\n  max_age off\n  prune_interval 1s\n}")),
+                      ("prune-interval-only", ("queue_retention {\n  prune_interval 5m\n}", "queue_retention {\n  prune_interval 1s\n}"))):
+        k2 = dict(dk)
+        ie = k2.pop("ingress_extra")
+        add("restart:" + n, "restart", running=config(running_routes(), top=a), new=config(dr, ingress_extra=ie, top=b, **k2), expect="fail-restart")
     # deliver topology: first deliver route / queue backend
     deliver = '"/push" {\n  deliver "https://example.invalid/hook" {\n    timeout 1s\n  }\n}'
     add("restart:first-deliver-route", "restart", new=config(dr + [deliver], **dk), expect="fail-restart")
@@ -885,6 +892,16 @@ def main(ctx, replay):
                 raise RuntimeError("probe set is blind to the delta of " + c["name"])
             continue
         # preconditions of the failure cases (otherwise the case does not test what its name says)
+        if exp == "fail-restart" and r["new_compiles"] and not r["needs_restart"]:
+            # the new file changes a setting that is consumed once, at start-up (listen addresses, pull API tuning, store options, ...): a reload
+            # cannot apply it; classified as applicable live it is reported as applied while the running process keeps the old value
+            C.report(ctx, "restart-only-change-classified-live:%s" % c["name"].split(":", 1)[-1],
+                     "the new file differs from the running one in a setting that only a restart can apply (%s), yet the reload classifier says it can be "
+                     "applied live (reload answered ok=%s): the route table / authenticators of the new file would be in force next to the old value of that "
+                     "setting" % (c["name"].split(":", 1)[-1], r["reload_ok"]),
+                     {"kind": "fault_sequence", "case": {"name": c["name"], "running_config": c["running"], "new_config": c["new"]},
+                      "observed": {"needs_restart": r["needs_restart"], "reload_ok": r["reload_ok"], "fp_same": r.get("fp_same")}})
+            continue
         if exp == "fail-restart" and not (r["new_compiles"] and r["needs_restart"]):
             raise RuntimeError("case %s: new file compiles=%s needs_restart=%s %s" % (c["name"], r["new_compiles"], r["needs_restart"], r["new_compile_error"]))
         if exp == "fail-noncompiling" and r["new_compiles"]:
